@@ -4,6 +4,11 @@ Decided:
   R08.1 GetHttpConnection.connection_spec_matches is False whenever the candidate is not a Server or ANY ONE dataclass
         field of GetHttpConnection (address, tls, via, transport_protocol - read from the class on every run) differs
         from the same-named attribute of the candidate (decision table: one row per field + the isinstance row).
+        The predicate's AST is interpreted (pyint) on (request, candidate) pairs that agree everywhere except in one field,
+        both directions, over representative values (other host, other port, tls on/off, no/other upstream proxy by
+        scheme, host and port, tcp/udp) - so a rewritten predicate (early returns, unpacked or normalised address, helper
+        calls) is analysed, not refused; when it is a plain conjunction of field equalities the symbolic path table
+        (equality atoms, all values) must agree too.  Host names differing only in case are not sampled as "different".
   R08.2 HttpLayer.get_connection (path enumeration, conditions as named atoms): inside the reuse loop a connection is
         handed out / waited on / its error reported only in an iteration where connection_spec_matches(connection) was
         true, and handed out only if it is not still being established and is connected; the context connection is
@@ -52,7 +57,7 @@ from ._helpers_A import truthiness_atom
 PROP = "C08"
 REG = {
     "strength": "partial",
-    "technique": "decision tables over condition atoms (match predicate, __setattr__ guard), CFG path enumeration with control-dependence facts, argument->field source table",
+    "technique": "interpretation of the match predicate's AST over spec pairs differing in one field + decision tables over condition atoms (match predicate, __setattr__ guard), CFG path enumeration with control-dependence facts, argument->field source table",
     "claim": "connection_spec_matches compares every field of GetHttpConnection; get_connection hands out / waits on / creates connections only "
     "under a successful match and builds new Servers from the request's own spec; make_server_connection asks for the flow's current destination "
     "and binds the result; Server.address/via cannot change while OPEN; failed attempts answer waiters with an error.",
@@ -64,15 +69,36 @@ CONN = "mitmproxy/connection.py"
 
 
 # ---------------------------------------------------------------------------------------------------
-def _r081(ctx):
-    cls = ctx.model.cls(I, "GetHttpConnection")
-    fields = dataclass_fields(cls)
-    ctx.require(any("dataclass" in norm(d) for d in cls.decorator_list), "GetHttpConnection is not a dataclass any more")
-    ctx.require({"address", "tls", "via", "transport_protocol"} <= set(fields), f"GetHttpConnection fields changed: {fields}")
-    fn = ctx.func(I, "GetHttpConnection.connection_spec_matches")
-    ps = params_of(fn)
-    ctx.require(len(ps) == 1, "connection_spec_matches signature changed")
-    cand = ps[0]
+def _spec_domain(ctx, cls, fields):
+    """Representative values per GetHttpConnection field: base value + alternatives that name a DIFFERENT destination (host names that differ
+    only in case are deliberately not among them: DNS names are case-insensitive, so a predicate may or may not tell them apart)."""
+    import collections
+
+    SS = collections.namedtuple("ServerSpec", "scheme address")  # stands for mitmproxy.net.server_spec.ServerSpec (a NamedTuple)
+    dom = {
+        "address": [("example.com", 8080), ("other.org", 8080), ("example.com", 8081)],
+        "tls": [False, True],
+        "via": [None, SS("http", ("proxy.local", 3128)), SS("https", ("proxy.local", 3128)), SS("http", ("proxy2.local", 3128)), SS("http", ("proxy.local", 3129))],
+        "transport_protocol": ["tcp", "udp"],
+    }
+    ann = {st.target.id: norm(st.annotation) for st in cls.body if isinstance(st, ast.AnnAssign) and isinstance(st.target, ast.Name)}
+    for f in fields:
+        if f in dom:
+            continue
+        a = ann.get(f, "")
+        if a == "bool":
+            dom[f] = [False, True]
+        elif a in ("str", "str | None"):
+            dom[f] = ["a.example", "b.example"] + ([None] if "None" in a else [])
+        elif a in ("int", "int | None"):
+            dom[f] = [1, 2] + ([None] if "None" in a else [])
+        else:
+            raise AnalysisError(f"GetHttpConnection has a new field `{f}: {a}` for which R08.1 has no representative values (extend _spec_domain)")
+    return dom
+
+
+def _r081_paths(ctx, fn, fields, cand):
+    """Symbolic reading of the predicate (equality atoms over all values).  {row: bool} or None when the predicate has a shape the atoms do not cover."""
 
     def atom(expr, st, sp):
         io = isinstance_of(expr)
@@ -86,24 +112,97 @@ def _r081(ctx):
                     return ("EQ_" + f, isinstance(cp[2], ast.Eq))
         return None
 
-    w = (I, "GetHttpConnection.connection_spec_matches", fn)
-    rows = [("IS", "the candidate is not a Server")] + [("EQ_" + f, f"field `{f}` differs") for f in fields]
-    for name, what in rows:
+    out = {}
+    try:
         sc = {"IS": True}
         sc.update({"EQ_" + f: True for f in fields})
-        sc[name] = False
         traces, _ = run_block(fn.body, ASpec(atom=atom, scenario=sc), {cand: ("param", cand)})
+        res = {s.get("$ret") for _, how, s in traces}
+        if not traces or C(False) in res:
+            return None  # not understood through equality atoms alone
+        for name in ["IS"] + ["EQ_" + f for f in fields]:
+            sc = {"IS": True}
+            sc.update({"EQ_" + f: True for f in fields})
+            sc[name] = False
+            traces, _ = run_block(fn.body, ASpec(atom=atom, scenario=sc), {cand: ("param", cand)})
+            ctx.cells += 1
+            if not traces:
+                return None
+            res = {s.get("$ret") for _, how, s in traces if how == "return"}
+            out[name] = (res == {C(False)} and all(how == "return" for _, how, _ in traces), sorted(map(str, res)))
+    except AnalysisError:
+        return None
+    return out
+
+
+def _r081(ctx):
+    """The predicate is *interpreted* (pyint) on pairs (request spec, candidate connection) that are equal except for exactly one field - so a
+    rewritten predicate (early returns, unpacked address, normalised host, helper) is analysed like the one-expression original; where the
+    predicate is a plain conjunction of equalities the symbolic path reading (all values, not only representatives) is checked as well."""
+    from ..pyint import Interp
+    from ..pyint import Raised
+    from ..pyint import Rec
+
+    cls = ctx.model.cls(I, "GetHttpConnection")
+    fields = dataclass_fields(cls)
+    ctx.require(any("dataclass" in norm(d) for d in cls.decorator_list), "GetHttpConnection is not a dataclass any more")
+    ctx.require({"address", "tls", "via", "transport_protocol"} <= set(fields), f"GetHttpConnection fields changed: {fields}")
+    fn = ctx.func(I, "GetHttpConnection.connection_spec_matches")
+    ps = params_of(fn)
+    ctx.require(len(ps) == 1, "connection_spec_matches signature changed")
+    cand = ps[0]
+    w = (I, "GetHttpConnection.connection_spec_matches", fn)
+    dom = _spec_domain(ctx, cls, fields)
+
+    def run(want, have, cand_cls="Server"):
+        it = Interp(ctx.model)
+        me = Rec("GetHttpConnection", _bases=("HttpCommand", "Command"), _impl=(I, "GetHttpConnection"), **want)
+        other = Rec(cand_cls, _bases=("Connection",), _name="candidate", **have)
         ctx.cells += 1
-        ctx.require(traces, "connection_spec_matches: no path")
-        res = {s.get("$ret") for _, how, s in traces if how == "return"}
-        ctx.check(res == {C(False)} and all(how == "return" for _, how, _ in traces), "R08.1", w, f"match when {what}",
-                  f"connection_spec_matches can be true although {what} - a request would be sent on a connection to a different destination (result {sorted(map(str, res))})",
-                  desc=f"connection_spec_matches is False when {what}")
-    sc = {"IS": True}
-    sc.update({"EQ_" + f: True for f in fields})
-    traces, _ = run_block(fn.body, ASpec(atom=atom, scenario=sc), {cand: ("param", cand)})
-    res = {s.get("$ret") for _, how, s in traces}
-    ctx.require(C(False) not in res, "connection_spec_matches is False even when everything matches (predicate not understood)")
+        try:
+            return bool(it.truthy(it.method(me, "connection_spec_matches", other)))
+        except Raised as r:
+            raise AnalysisError(f"connection_spec_matches raises {r} on request {want} / candidate {have} (R08.1 domain)")
+
+    bases = []
+    for i in range(max(len(v) for k, v in dom.items() if k != "address")):
+        b = {f: dom[f][min(i, len(dom[f]) - 1)] for f in fields}
+        b["address"] = dom["address"][0]
+        if b not in bases:
+            bases.append(b)
+    for b in bases:
+        ctx.require(run(b, dict(b)), f"connection_spec_matches is False although request and connection agree in every field ({b}) - predicate not understood")
+    sym = _r081_paths(ctx, fn, fields, cand)
+    if sym is None:
+        ctx.note("connection_spec_matches is not a plain conjunction of field equalities: decided by interpretation on representative spec pairs only")
+
+    # row: candidate is not a Server
+    wit = next((b for b in bases if run(b, dict(b), cand_cls="Client")), None)
+    ok = wit is None and (sym is None or sym["IS"][0])
+    how = "" if ok else (f"a Client with spec {wit}" if wit else f"result {sym['IS'][1]}")
+    ctx.check(ok, "R08.1", w, "match when the candidate is not a Server",
+              f"connection_spec_matches can be true although the candidate is not a Server - a request would be sent on a connection to a different destination ({how})",
+              desc="connection_spec_matches is False when the candidate is not a Server")
+    for f in fields:
+        wit = None
+        n = 0
+        for b in bases:
+            for a1, a2 in itertools.permutations(dom[f], 2):
+                want, have = dict(b), dict(b)
+                want[f], have[f] = a1, a2
+                n += 1
+                if wit is None and run(want, have):
+                    wit = (a1, a2, b)
+        ok = wit is None and (sym is None or sym["EQ_" + f][0])
+        if wit is not None:
+            how = f"request {f}={wit[0]!r} matches a connection with {f}={wit[1]!r} (all other fields equal: {({k: v for k, v in wit[2].items() if k != f})})"
+        elif not ok:
+            how = f"result {sym['EQ_' + f][1]}"
+        else:
+            how = ""
+        ctx.check(ok, "R08.1", w, f"match when field `{f}` differs",
+                  f"connection_spec_matches can be true although field `{f}` differs - a request would be sent on a connection to a different destination ({how})",
+                  desc=f"connection_spec_matches is False when field `{f}` differs ({n} interpreted spec pairs{', + symbolic row' if sym else ''})")
     ctx.expect_instances("R08.1", 5)
 
 
@@ -502,6 +601,12 @@ MUTANTS = [
     Mutant("match-ignores-tls", I, "            and self.tls == connection.tls\n", "", "R08.1"),
     Mutant("match-address-or", I, "            and self.address == connection.address\n            and self.tls == connection.tls\n", "            and (self.address == connection.address\n            or self.tls == connection.tls)\n", "R08.1"),
     Mutant("match-transport-compares-self", I, "self.transport_protocol == connection.transport_protocol", "self.transport_protocol == self.transport_protocol", "R08.1"),
+    Mutant("match-rewritten-case-insensitive-loses-tls", I, "        return (\n            isinstance(connection, Server)\n            and self.address == connection.address\n            and self.tls == connection.tls\n",
+           "        if not isinstance(connection, Server) or not connection.address:\n            return False\n        host, port = self.address\n        conn_host, conn_port = connection.address[:2]\n"
+           "        return (\n            host.lower() == conn_host.lower()\n            and port == conn_port\n", "R08.1"),
+    Mutant("match-ignores-port", I, "            and self.address == connection.address\n", "            and self.address[0] == connection.address[0]\n", "R08.1"),
+    Mutant("match-tls-one-directional", I, "            and self.tls == connection.tls\n", "            and (connection.tls or not self.tls)\n", "R08.1"),
+    Mutant("match-via-presence-only", I, "            and self.via == connection.via\n", "            and bool(self.via) == bool(connection.via)\n", "R08.1"),
     # R08.2
     Mutant("reuse-without-match", I, "                if connection_suitable:\n                    if connection in self.waiting_for_establishment:", "                if connection_suitable or connection.connected:\n                    if connection in self.waiting_for_establishment:", "R08.2"),
     Mutant("reuse-half-closed", I, "                    elif connection.connected:\n                        # see \"tricky", "                    elif connection.connected or True:\n                        # see \"tricky", "R08.2"),
